@@ -177,11 +177,13 @@ example : plan 0 128 = [⟨0, 128⟩, ⟨128, 1⟩] := by decide
 
 /-! ## Part 2: serving -/
 
-/-- A well-formed block tree: block 0 is genesis (number 0); every other block has an earlier
-    block as parent and the parent's number plus one.  (`addSeg` keeps this, see `wf_addSeg`.) -/
+/-- A well-formed block state: block 0 is genesis (number 0, never pruned); every other block
+    that is still known has an earlier, still known block as parent and the parent's number plus
+    one.  (`addSeg` and `finalise` keep this, see `wf_addSeg`, `wf_finalise`.) -/
 structure WF (t : Tree) : Prop where
-  root : t[0]? = some ⟨0, 0⟩
-  child : ∀ i, 0 < i → i < t.size → parentOf t i < i ∧ numOf t i = numOf t (parentOf t i) + 1
+  root : t.blocks[0]? = some ⟨0, 0, false⟩
+  child : ∀ i, 0 < i → known t i = true →
+    parentOf t i < i ∧ known t (parentOf t i) = true ∧ numOf t i = numOf t (parentOf t i) + 1
 
 /-- `y` is a block of the tree other than genesis and `x` is its parent -/
 def Link (t : Tree) (x y : Nat) : Prop := y ≠ 0 ∧ known t y = true ∧ parentOf t y = x
@@ -191,8 +193,9 @@ def Linked (R : Nat → Nat → Prop) (l : List Nat) : Prop :=
   ∀ i x y, l[i]? = some x → l[i + 1]? = some y → R x y
 
 /-- the fields block `h` must carry for `RequestedData = mask`: requested and stored -/
-def expectedFields (mask h : Nat) : Nat :=
-  bit (mask.testBit 0) 1 + bit (mask.testBit 1) 2 + bit (mask.testBit 2 && hasReceipt h) 4
+def expectedFields (t : Tree) (mask h : Nat) : Nat :=
+  bit (mask.testBit 0) 1 + bit (mask.testBit 1 && hasBody t h) 2
+    + bit (mask.testBit 2 && hasReceipt h) 4
     + bit (mask.testBit 3 && hasMessageQueue h) 8 + bit (mask.testBit 4 && hasJustification h) 16
 
 /-! ### generic list lemmas -/
@@ -227,35 +230,33 @@ theorem linked_reverse {R} {l : List Nat} (h : Linked R l) :
 theorem numOf_zero {t : Tree} (wf : WF t) : numOf t 0 = 0 := by
   simp [numOf, wf.root]
 
-theorem known_of_num_pos {t : Tree} (wf : WF t) {x : Nat} (h : 1 ≤ numOf t x) :
-    x ≠ 0 ∧ known t x = true := by
-  constructor
-  · intro h0
-    subst h0
-    rw [numOf_zero wf] at h
-    omega
-  · simp only [known, decide_eq_true_eq]
-    by_cases hx : x < t.size
-    · exact hx
-    · have : t[x]? = none := by simp; omega
-      simp [numOf, this] at h
+theorem known_zero {t : Tree} (wf : WF t) : known t 0 = true := by
+  simp [known, wf.root]
 
-theorem numOf_upN {t : Tree} (wf : WF t) (h : Nat) :
-    ∀ k, k ≤ numOf t h → numOf t (upN t h k) = numOf t h - k
-  | 0, _ => by simp [upN]
-  | k + 1, hk => by
-    have ih := numOf_upN wf h k (by omega)
-    have hpos : 1 ≤ numOf t (upN t h k) := by omega
-    obtain ⟨hne, hkn⟩ := known_of_num_pos wf hpos
-    have := (wf.child (upN t h k) (by omega) (by simpa [known] using hkn)).2
+theorem ne_zero_of_num_pos {t : Tree} (wf : WF t) {x : Nat} (h : 1 ≤ numOf t x) : x ≠ 0 := by
+  intro h0
+  subst h0
+  rw [numOf_zero wf] at h
+  omega
+
+/-- the ancestors of a known block are known and numbered downwards -/
+theorem upN_known {t : Tree} (wf : WF t) {h : Nat} (hk : known t h = true) :
+    ∀ k, k ≤ numOf t h → known t (upN t h k) = true ∧ numOf t (upN t h k) = numOf t h - k
+  | 0, _ => by simp [upN, hk]
+  | k + 1, hle => by
+    obtain ⟨ihk, ihn⟩ := upN_known wf hk k (by omega)
+    have hne := ne_zero_of_num_pos wf (x := upN t h k) (by omega)
+    obtain ⟨_, h2, h3⟩ := wf.child (upN t h k) (by omega) ihk
     simp only [upN]
-    omega
+    exact ⟨h2, by omega⟩
 
-theorem link_upN {t : Tree} (wf : WF t) (h k : Nat) (hk : k < numOf t h) :
-    Link t (upN t h (k + 1)) (upN t h k) := by
-  have hn := numOf_upN wf h k (by omega)
-  obtain ⟨hne, hkn⟩ := known_of_num_pos wf (x := upN t h k) (by omega)
-  exact ⟨hne, hkn, rfl⟩
+theorem numOf_upN {t : Tree} (wf : WF t) {h : Nat} (hk : known t h = true) (k : Nat)
+    (hle : k ≤ numOf t h) : numOf t (upN t h k) = numOf t h - k := (upN_known wf hk k hle).2
+
+theorem link_upN {t : Tree} (wf : WF t) {h : Nat} (hkn : known t h = true) (k : Nat)
+    (hk : k < numOf t h) : Link t (upN t h (k + 1)) (upN t h k) := by
+  obtain ⟨h1, h2⟩ := upN_known wf hkn k (by omega)
+  exact ⟨ne_zero_of_num_pos wf (by omega), h1, rfl⟩
 
 /-! ### `getBlockData` -/
 
@@ -281,7 +282,7 @@ private theorem testBit_mask (m i : Nat) : decide ((m &&& 2 ^ i) >>> i = 1) = m.
     Nat.testBit_eq_decide_div_mod_eq]
 
 theorem getBlockData_known (t : Tree) (h mask : Nat) (hk : known t h = true) :
-    getBlockData t h mask = ⟨h, expectedFields mask h⟩ := by
+    getBlockData t h mask = ⟨h, expectedFields t mask h⟩ := by
   have b0 : decide (mask &&& 1 = 1) = mask.testBit 0 := by simpa using testBit_mask mask 0
   have b1 : decide ((mask &&& 2) >>> 1 = 1) = mask.testBit 1 := by simpa using testBit_mask mask 1
   have b2 : decide ((mask &&& 4) >>> 2 = 1) = mask.testBit 2 := by simpa using testBit_mask mask 2
@@ -295,40 +296,70 @@ theorem getBlockData_known (t : Tree) (h mask : Nat) (hk : known t h = true) :
 def canon (t : Tree) (n : Nat) : Nat := upN t (best t) (bestNum t - n)
 
 /-- the response entry for block `h`: the block and exactly its requested fields -/
-def blk (mask h : Nat) : BData := ⟨h, expectedFields mask h⟩
+def blk (t : Tree) (mask h : Nat) : BData := ⟨h, expectedFields t mask h⟩
 
 theorem hashByNumber_eq (t : Tree) (n : Nat) :
     hashByNumber t n = if n > bestNum t then none else some (canon t n) := rfl
 
+theorem firstIdx_spec (n : Nat) : ∀ (l : List Blk) (i : Nat),
+    firstIdx n l i = 0 ∨ ∃ b, l[firstIdx n l i - i]? = some b ∧ b.dead = false ∧ i ≤ firstIdx n l i
+  | [], _ => Or.inl rfl
+  | b :: rest, i => by
+    simp only [firstIdx]
+    split
+    · rename_i hb
+      right
+      refine ⟨b, by simp, ?_, Nat.le_refl _⟩
+      cases hd : b.dead <;> simp_all
+    · rcases firstIdx_spec n rest (i + 1) with h0 | ⟨b', hb', hd', hle⟩
+      · exact Or.inl h0
+      · right
+        refine ⟨b', ?_, hd', by omega⟩
+        have e : firstIdx n rest (i + 1) - i = (firstIdx n rest (i + 1) - (i + 1)) + 1 := by omega
+        rw [e, List.getElem?_cons_succ]
+        exact hb'
+
+/-- the best block is a block of the state -/
+theorem best_known {t : Tree} (wf : WF t) : known t (best t) = true := by
+  rcases firstIdx_spec (maxNum t) t.blocks.toList 0 with h0 | ⟨b, hb, hd, _⟩
+  · simp only [best, firstWithNum, h0]
+    exact known_zero wf
+  · simp only [best, firstWithNum, known]
+    simp only [Nat.sub_zero, Array.getElem?_toList] at hb
+    simp [hb, hd]
+
+theorem canon_known {t : Tree} (wf : WF t) {n : Nat} (_h : n ≤ bestNum t) :
+    known t (canon t n) = true :=
+  (upN_known wf (best_known wf) (bestNum t - n) (by simp only [bestNum]; omega)).1
+
 theorem canon_num {t : Tree} (wf : WF t) {n : Nat} (h : n ≤ bestNum t) : numOf t (canon t n) = n := by
-  have := numOf_upN wf (best t) (bestNum t - n) (by simp only [bestNum]; omega)
+  have := numOf_upN wf (best_known wf) (bestNum t - n) (by simp only [bestNum]; omega)
   simp only [canon, bestNum] at *
   omega
 
 theorem canon_link {t : Tree} (wf : WF t) {n : Nat} (h : n + 1 ≤ bestNum t) :
     Link t (canon t n) (canon t (n + 1)) := by
-  have := link_upN wf (best t) (bestNum t - n - 1) (by simp only [bestNum] at *; omega)
+  have := link_upN wf (best_known wf) (bestNum t - n - 1) (by simp only [bestNum] at *; omega)
   have e1 : bestNum t - n - 1 + 1 = bestNum t - n := by omega
   have e2 : bestNum t - n - 1 = bestNum t - (n + 1) := by omega
   rw [e1, e2] at this
   exact this
 
-theorem getBlockDataByNumber_ok {t : Tree} (wf : WF t) {n mask : Nat} {b : BData} (hn : 1 ≤ n)
-    (h : getBlockDataByNumber t n mask = .ok b) : n ≤ bestNum t ∧ b = blk mask (canon t n) := by
+theorem getBlockDataByNumber_ok {t : Tree} (wf : WF t) {n mask : Nat} {b : BData} (_hn : 1 ≤ n)
+    (h : getBlockDataByNumber t n mask = .ok b) : n ≤ bestNum t ∧ b = blk t mask (canon t n) := by
   simp only [getBlockDataByNumber, hashByNumber_eq] at h
   by_cases hgt : n > bestNum t
   · simp [hgt] at h
   · simp only [hgt, ite_false] at h
     have hle : n ≤ bestNum t := by omega
-    have hk := (known_of_num_pos wf (x := canon t n) (by rw [canon_num wf hle]; exact hn)).2
-    rw [getBlockData_known t _ mask hk] at h
+    rw [getBlockData_known t _ mask (canon_known wf hle)] at h
     injection h with h
     exact ⟨hle, h.symm⟩
 
 theorem ascByNumber_ok {t : Tree} (wf : WF t) (mask : Nat) :
     ∀ (cnt start : Nat) (bs : List BData), 1 ≤ start → ascByNumber t mask cnt start = .ok bs →
       bs.length = cnt ∧ (0 < cnt → start + cnt - 1 ≤ bestNum t)
-      ∧ ∀ i, i < cnt → bs[i]? = some (blk mask (canon t (start + i)))
+      ∧ ∀ i, i < cnt → bs[i]? = some (blk t mask (canon t (start + i)))
   | 0, start, bs, _, h => by
     simp only [ascByNumber] at h
     injection h with h
@@ -364,7 +395,7 @@ theorem ascByNumber_ok {t : Tree} (wf : WF t) (mask : Nat) :
 theorem descByNumber_ok {t : Tree} (wf : WF t) (mask : Nat) :
     ∀ (cnt start : Nat) (bs : List BData), cnt ≤ start → descByNumber t mask cnt start = .ok bs →
       bs.length = cnt ∧ (0 < cnt → start ≤ bestNum t)
-      ∧ ∀ i, i < cnt → bs[i]? = some (blk mask (canon t (start - i)))
+      ∧ ∀ i, i < cnt → bs[i]? = some (blk t mask (canon t (start - i)))
   | 0, start, bs, _, h => by
     simp only [descByNumber] at h
     injection h with h
@@ -411,14 +442,14 @@ theorem pathUp_get (t : Tree) (d : Nat) :
 /-- what a successful `Range(a, d)` returns: the path `a = upN d k, …, upN d 1, d` -/
 theorem range_ok {t : Tree} {a d : Nat} {sub : List Nat} (h : range t a d = some sub) :
     ∃ k, sub.length = k + 1 ∧ (∀ i, i ≤ k → sub[i]? = some (upN t d (k - i)))
-      ∧ upN t d k = a ∧ numOf t d = numOf t a + k := by
+      ∧ upN t d k = a ∧ numOf t d = numOf t a + k ∧ (a = d ∨ known t d = true) := by
   unfold range at h
   split at h
   · rename_i had
     injection h with h
     subst h
     subst had
-    refine ⟨0, rfl, ?_, rfl, rfl⟩
+    refine ⟨0, rfl, ?_, rfl, rfl, Or.inl rfl⟩
     intro i hi
     have : i = 0 := by omega
     subst this
@@ -433,11 +464,12 @@ theorem range_ok {t : Tree} {a d : Nat} {sub : List Nat} (h : range t a d = some
           · simp at h
           · split at h
             · simp at h
-            · rename_i _ _ _ _ hnum hup
+            · rename_i _ _ hkd _ hnum hup
               injection h with h
               subst h
               have hup' : upN t d (numOf t d - numOf t a) = a := by simpa using hup
-              refine ⟨numOf t d - numOf t a, by simp [pathUp_length], ?_, hup', by omega⟩
+              refine ⟨numOf t d - numOf t a, by simp [pathUp_length], ?_, hup', by omega,
+                Or.inr (by simpa using hkd)⟩
               intro i hi
               cases i with
               | zero => simp [hup']
@@ -452,10 +484,14 @@ theorem range_facts {t : Tree} (wf : WF t) {a d : Nat} {sub : List Nat} (ha : kn
     (h : range t a d = some sub) :
     Linked (Link t) sub ∧ (∀ x ∈ sub, known t x = true) ∧ sub[0]? = some a
       ∧ sub[sub.length - 1]? = some d ∧ 0 < sub.length := by
-  obtain ⟨k, hlen, hget, hup, hnum⟩ := range_ok h
+  obtain ⟨k, hlen, hget, hup, hnum, hkd⟩ := range_ok h
+  have hkd : known t d = true := by
+    rcases hkd with h | h
+    · rw [← h]; exact ha
+    · exact h
   have hnumi : ∀ i, i ≤ k → numOf t (upN t d (k - i)) = numOf t a + i := by
     intro i hi
-    rw [numOf_upN wf d (k - i) (by omega)]
+    rw [numOf_upN wf hkd (k - i) (by omega)]
     omega
   refine ⟨?_, ?_, ?_, ?_, by omega⟩
   · intro i x y hx hy
@@ -468,7 +504,7 @@ theorem range_facts {t : Tree} (wf : WF t) {a d : Nat} {sub : List Nat} (ha : kn
     injection hy with hy
     subst hx
     subst hy
-    have := link_upN wf d (k - (i + 1)) (by omega)
+    have := link_upN wf hkd (k - (i + 1)) (by omega)
     have e : k - (i + 1) + 1 = k - i := by omega
     rw [e] at this
     exact this
@@ -479,9 +515,7 @@ theorem range_facts {t : Tree} (wf : WF t) {a d : Nat} {sub : List Nat} (ha : kn
     rw [hget i hik] at hs
     injection hs with hs
     subst hs
-    cases i with
-    | zero => simpa [hup] using ha
-    | succ j => exact (known_of_num_pos wf (by rw [hnumi (j + 1) hik]; omega)).2
+    exact (upN_known wf hkd (k - i) (by omega)).1
   · simpa [hup] using hget 0 (by omega)
   · have := hget k (by omega)
     simpa [hlen, upN] using this
@@ -491,11 +525,11 @@ def idsOf (bs : List BData) : List Nat := bs.map (·.id)
 
 /-- every entry is a block of the tree carrying exactly its requested fields -/
 def FieldsExact (t : Tree) (mask : Nat) (bs : List BData) : Prop :=
-  ∀ b ∈ bs, known t b.id = true ∧ b = blk mask b.id
+  ∀ b ∈ bs, known t b.id = true ∧ b = blk t mask b.id
 
 theorem map_getBlockData {t : Tree} (mask : Nat) :
     ∀ (l : List Nat), (∀ x ∈ l, known t x = true) →
-      l.map (fun h => getBlockData t h mask) = l.map (blk mask)
+      l.map (fun h => getBlockData t h mask) = l.map (blk t mask)
   | [], _ => rfl
   | x :: l, h => by
     simp only [List.map_cons]
@@ -503,11 +537,11 @@ theorem map_getBlockData {t : Tree} (mask : Nat) :
       (fun y hy => h y (by simp [hy]))]
     rfl
 
-theorem idsOf_map_blk (mask : Nat) (l : List Nat) : idsOf (l.map (blk mask)) = l := by
+theorem idsOf_map_blk (t : Tree) (mask : Nat) (l : List Nat) : idsOf (l.map (blk t mask)) = l := by
   simp [idsOf, blk, List.map_map, Function.comp_def]
 
 theorem fieldsExact_map_blk {t : Tree} (mask : Nat) (l : List Nat)
-    (h : ∀ x ∈ l, known t x = true) : FieldsExact t mask (l.map (blk mask)) := by
+    (h : ∀ x ∈ l, known t x = true) : FieldsExact t mask (l.map (blk t mask)) := by
   intro b hb
   obtain ⟨x, hx, rfl⟩ := List.mem_map.mp hb
   exact ⟨h x hx, rfl⟩
@@ -571,12 +605,12 @@ theorem chainByHash_ok {t : Tree} (wf : WF t) {a d max mask : Nat} {desc : Bool}
     | true =>
       simp only [ite_true] at h hs'
       subst h
-      have hfe : FieldsExact t mask (sub'.map (blk mask)).reverse := by
+      have hfe : FieldsExact t mask (sub'.map (blk t mask)).reverse := by
         intro b hb
         exact fieldsExact_map_blk mask sub' hknown' b (List.mem_reverse.mp hb)
       refine ⟨by simpa using hlen', hfe, by simp, ?_⟩
       intro _
-      have hids : idsOf (sub'.map (blk mask)).reverse = sub'.reverse := by
+      have hids : idsOf (sub'.map (blk t mask)).reverse = sub'.reverse := by
         rw [← List.map_reverse, idsOf_map_blk]
       rw [hids]
       refine ⟨linked_reverse hlink', ?_⟩
@@ -621,7 +655,7 @@ def StartsAt (t : Tree) (r : Request) (x : Nat) : Prop :=
   | .num n => if r.dir = 0 then x = canon t n else x = canon t (min n (bestNum t))
 
 private theorem idsOf_get {bs : List BData} {cnt mask : Nat} {f : Nat → Nat}
-    (hl : bs.length = cnt) (hg : ∀ i, i < cnt → bs[i]? = some (blk mask (f i)))
+    (hl : bs.length = cnt) (hg : ∀ i, i < cnt → bs[i]? = some (blk t mask (f i)))
     {i x : Nat} (hx : (idsOf bs)[i]? = some x) : i < cnt ∧ x = f i := by
   simp only [idsOf, List.getElem?_map] at hx
   by_cases hi : i < cnt
@@ -635,7 +669,7 @@ private theorem idsOf_get {bs : List BData} {cnt mask : Nat} {f : Nat → Nat}
     simp [this] at hx
 
 private theorem fields_of_get {t : Tree} {bs : List BData} {cnt mask : Nat} {f : Nat → Nat}
-    (hl : bs.length = cnt) (hg : ∀ i, i < cnt → bs[i]? = some (blk mask (f i)))
+    (hl : bs.length = cnt) (hg : ∀ i, i < cnt → bs[i]? = some (blk t mask (f i)))
     (hk : ∀ i, i < cnt → known t (f i) = true) : FieldsExact t mask bs := by
   intro b hb
   obtain ⟨i, hi, hbi⟩ := List.getElem_of_mem hb
@@ -711,7 +745,7 @@ theorem handleAscending_ok {t : Tree} (wf : WF t) {r : Request} {bs : List BData
       have hkn : ∀ i, i < bs.length → known t (canon t (n + i)) = true := by
         intro i hi
         have := hb (by omega)
-        exact (known_of_num_pos wf (by rw [canon_num wf (by omega)]; omega)).2
+        exact canon_known wf (by omega)
       refine ⟨h1, h2, fields_of_get hl hg (by rw [← hl]; exact hkn), ?_, ?_, fun hd => by omega⟩
       · intro x hx
         obtain ⟨_, hx'⟩ := idsOf_get hl hg hx
@@ -749,7 +783,7 @@ theorem handleDescending_ok {t : Tree} (wf : WF t) {r : Request} {bs : List BDat
           injection heh with heh
           have hk : known t eh = true := by
             rw [← heh]
-            exact (known_of_num_pos wf (by rw [canon_num wf (by omega)]; exact hen)).2
+            exact canon_known wf (by omega)
           obtain ⟨hlen, hfe, _, hdesc⟩ := chainByHash_ok wf hk h
           obtain ⟨hl, hst⟩ := hdesc rfl
           obtain ⟨h1, h2⟩ := served_of_effMax (r := r) hlen
@@ -772,7 +806,7 @@ theorem handleDescending_ok {t : Tree} (wf : WF t) {r : Request} {bs : List BDat
     have hkn : ∀ i, i < bs.length → known t (canon t (s - i)) = true := by
       intro i hi
       have := hb (by omega)
-      exact (known_of_num_pos wf (by rw [canon_num wf (by omega)]; omega)).2
+      exact canon_known wf (by omega)
     refine ⟨h1, h2, fields_of_get hl hg (by rw [← hl]; exact hkn), ?_, fun hd => by omega, ?_⟩
     · intro x hx
       obtain ⟨_, hx'⟩ := idsOf_get hl hg hx
@@ -806,7 +840,7 @@ own test `ascending_request_nil_startHash`): see `C31_serve_chain_counterexample
     (4) carries for every block exactly the requested fields (that are stored for it). -/
 theorem C31_serve_chain_partial (t : Tree) (wf : WF t) (r : Request) (bs : List BData)
     (hgen : ¬ (r.from_ = .num 0 ∧ r.dir = 0)) (h : serve t r = .ok bs) : ServedChain t r bs := by
-  unfold serve at h
+  unfold serve dispatch at h
   split at h
   · simp at h
   · split at h
@@ -854,7 +888,7 @@ theorem serve_asc_by_number_length (t : Tree) (n : Nat) (mx : Option Nat) (mask 
     omega
   have hs : serve t ⟨.num n, 0, mx, mask⟩ = ascByNumber t mask
       ((if n + effMax mx - 1 > bestNum t then bestNum t else n + effMax mx - 1) + 1 - n) n := by
-    simp only [serve, handleAscending, hmask, hn0, hb, hmod, ite_true, ite_false]
+    simp only [serve, dispatch, handleAscending, hmask, hn0, hb, hmod, ite_true, ite_false]
   obtain ⟨bs, hbs, hl⟩ := ascByNumber_total t mask
     ((if n + effMax mx - 1 > bestNum t then bestNum t else n + effMax mx - 1) + 1 - n) n
     (by split <;> omega)
@@ -872,7 +906,7 @@ theorem serve_desc_by_number_length (t : Tree) (n : Nat) (mx : Option Nat) (mask
     split <;> omega
   have hserve : serve t ⟨.num n, 1, mx, mask⟩ = descByNumber t mask
       (s + 1 - (if s > effMax mx then s - effMax mx + 1 else 1)) s := by
-    simp only [serve, handleDescending, hmask, hs, ite_true, ite_false,
+    simp only [serve, dispatch, handleDescending, hmask, hs, ite_true, ite_false,
       show ¬ (1 : Nat) = 0 by omega]
   obtain ⟨bs, hbs, hl⟩ := descByNumber_total t mask
     (s + 1 - (if s > effMax mx then s - effMax mx + 1 else 1)) s (by omega)
@@ -904,58 +938,194 @@ theorem C31_serve_by_number_length (t : Tree) (r : Request) (n : Nat) (hmask : r
 
 /-! ### the trees of the correspondence run are well formed (the theorems are not vacuous) -/
 
-theorem get_push_lt (t : Tree) (b : Blk) {i : Nat} (h : i < t.size) : (t.push b)[i]? = t[i]? := by
+theorem get_push_lt (bs : Array Blk) (b : Blk) {i : Nat} (h : i < bs.size) :
+    (bs.push b)[i]? = bs[i]? := by
   rw [Array.getElem?_push]
-  have : i ≠ t.size := by omega
+  have : i ≠ bs.size := by omega
   simp [this]
+
+theorem known_lt {t : Tree} {i : Nat} (h : known t i = true) : i < t.size := by
+  simp only [known, Tree.size] at *
+  by_cases hi : i < t.blocks.size
+  · exact hi
+  · have : t.blocks[i]? = none := by simp; omega
+    simp [this] at h
 
 theorem wf_genesis : WF genesisTree := by
   refine ⟨rfl, ?_⟩
   intro i h0 h1
-  simp only [genesisTree] at h1
-  have : i < 1 := h1
+  have := known_lt h1
+  simp only [genesisTree, Tree.size] at this
+  have : i < 1 := this
   omega
 
-theorem wf_push {t : Tree} (wf : WF t) {p : Nat} (hp : p < t.size) :
-    WF (t.push ⟨p, numOf t p + 1⟩) := by
+theorem wf_push {t : Tree} (wf : WF t) {p : Nat} (hp : known t p = true) :
+    WF ⟨t.blocks.push ⟨p, numOf t p + 1, false⟩, t.fin⟩ := by
+  have hps : p < t.blocks.size := known_lt hp
+  have hsz : 0 < t.blocks.size := by omega
+  -- the old blocks are unchanged
+  have hold : ∀ i, i < t.blocks.size →
+      known ⟨t.blocks.push ⟨p, numOf t p + 1, false⟩, t.fin⟩ i = known t i
+      ∧ parentOf ⟨t.blocks.push ⟨p, numOf t p + 1, false⟩, t.fin⟩ i = parentOf t i
+      ∧ numOf ⟨t.blocks.push ⟨p, numOf t p + 1, false⟩, t.fin⟩ i = numOf t i := by
+    intro i hi
+    simp only [known, parentOf, numOf, get_push_lt t.blocks _ hi, and_self]
   constructor
-  · rw [get_push_lt t _ (by omega)]
+  · show (t.blocks.push _)[0]? = _
+    rw [get_push_lt t.blocks _ hsz]
     exact wf.root
   · intro i h0 hi
-    simp only [Array.size_push] at hi
-    by_cases his : i = t.size
+    have hlt := known_lt hi
+    simp only [Tree.size, Array.size_push] at hlt
+    by_cases his : i = t.blocks.size
     · subst his
-      have hpar : parentOf (t.push ⟨p, numOf t p + 1⟩) t.size = p := by
+      have hpar : parentOf ⟨t.blocks.push ⟨p, numOf t p + 1, false⟩, t.fin⟩ t.blocks.size = p := by
         simp [parentOf]
-      have hnum : numOf (t.push ⟨p, numOf t p + 1⟩) t.size = numOf t p + 1 := by
+      have hnum : numOf ⟨t.blocks.push ⟨p, numOf t p + 1, false⟩, t.fin⟩ t.blocks.size
+          = numOf t p + 1 := by
         simp [numOf]
-      have hnp : numOf (t.push ⟨p, numOf t p + 1⟩) p = numOf t p := by
-        simp only [numOf, get_push_lt t _ hp]
-      rw [hpar, hnum, hnp]
-      exact ⟨hp, rfl⟩
-    · have hlt : i < t.size := by omega
-      obtain ⟨h1, h2⟩ := wf.child i h0 hlt
-      have hpar : parentOf (t.push ⟨p, numOf t p + 1⟩) i = parentOf t i := by
-        simp only [parentOf, get_push_lt t _ hlt]
-      have hnum : numOf (t.push ⟨p, numOf t p + 1⟩) i = numOf t i := by
-        simp only [numOf, get_push_lt t _ hlt]
-      have hnp : numOf (t.push ⟨p, numOf t p + 1⟩) (parentOf t i) = numOf t (parentOf t i) := by
-        simp only [numOf, get_push_lt t _ (show parentOf t i < t.size by omega)]
-      rw [hpar, hnum, hnp]
-      exact ⟨h1, h2⟩
+      obtain ⟨hk, _, hn⟩ := hold p hps
+      rw [hpar, hnum, hk, hn]
+      exact ⟨hps, hp, rfl⟩
+    · have hlt' : i < t.blocks.size := by omega
+      obtain ⟨hk, hpa, hn⟩ := hold i hlt'
+      rw [hk] at hi
+      obtain ⟨h1, h2, h3⟩ := wf.child i h0 hi
+      obtain ⟨hk', _, hn'⟩ := hold (parentOf t i) (by omega)
+      rw [hpa, hn, hk', hn']
+      exact ⟨h1, h2, h3⟩
 
 /-- every tree the harness builds (`genesisTree` extended by segments below existing blocks) -/
-theorem wf_addSeg : ∀ (k : Nat) {t : Tree} {p : Nat}, WF t → p < t.size → WF (addSeg t k p)
+theorem wf_addSeg : ∀ (k : Nat) {t : Tree} {p : Nat}, WF t → known t p = true → WF (addSeg t k p)
   | 0, _, _, wf, _ => wf
   | k + 1, t, p, wf, hp => by
     simp only [addSeg]
-    exact wf_addSeg k (wf_push wf hp) (by simp)
+    refine wf_addSeg k (wf_push wf hp) ?_
+    simp [known, Tree.size]
+
+/-! #### finalisation keeps the state well formed -/
+
+theorem upN_parent (t : Tree) (h : Nat) : ∀ k, upN t (parentOf t h) k = upN t h (k + 1)
+  | 0 => rfl
+  | k + 1 => by
+    show parentOf t (upN t (parentOf t h) k) = parentOf t (upN t h (k + 1))
+    rw [upN_parent t h k]
+
+theorem eq_zero_of_num_zero {t : Tree} (wf : WF t) {x : Nat} (hk : known t x = true)
+    (hn : numOf t x = 0) : x = 0 := by
+  by_cases h0 : x = 0
+  · exact h0
+  · have := (wf.child x (by omega) hk).2.2
+    omega
+
+/-- block `i` is kept by `finalise t fin`: an ancestor or a descendant of the finalised block -/
+def keeps (t : Tree) (fin i : Nat) : Prop :=
+  (numOf t i ≤ fin ∧ upN t (canon t fin) (fin - numOf t i) = i)
+  ∨ (fin ≤ numOf t i ∧ upN t i (numOf t i - fin) = canon t fin)
+
+theorem finalise_get (t : Tree) (fin i : Nat) :
+    (finalise t fin).blocks[i]? = t.blocks[i]?.map (fun b =>
+      if ((b.num ≤ fin && upN t (canon t fin) (fin - b.num) = i)
+          || (fin ≤ b.num && upN t i (b.num - fin) = canon t fin)) = true
+      then b else { b with dead := true }) := by
+  simp only [finalise, canon, List.getElem?_toArray, List.getElem?_map, List.getElem?_zipIdx,
+    Array.getElem?_toList, Option.map_map, Nat.zero_add]
+  rfl
+
+theorem finalise_parentOf (t : Tree) (fin i : Nat) : parentOf (finalise t fin) i = parentOf t i := by
+  simp only [parentOf, finalise_get]
+  cases t.blocks[i]? with
+  | none => rfl
+  | some b => simp only [Option.map_some]; split <;> rfl
+
+theorem finalise_numOf (t : Tree) (fin i : Nat) : numOf (finalise t fin) i = numOf t i := by
+  simp only [numOf, finalise_get]
+  cases t.blocks[i]? with
+  | none => rfl
+  | some b => simp only [Option.map_some]; split <;> rfl
+
+theorem finalise_known (t : Tree) (fin i : Nat) :
+    known (finalise t fin) i = true ↔ known t i = true ∧ keeps t fin i := by
+  simp only [known, numOf, keeps, finalise_get]
+  cases hb : t.blocks[i]? with
+  | none => simp
+  | some b =>
+    simp only [Option.map_some, Option.getD_some]
+    split
+    · rename_i hk
+      simp only [Bool.or_eq_true, Bool.and_eq_true, decide_eq_true_eq] at hk
+      simp [hk]
+    · rename_i hk
+      simp only [Bool.or_eq_true, Bool.and_eq_true, decide_eq_true_eq] at hk
+      simp [hk]
+
+theorem finalise_upN (t : Tree) (fin h : Nat) : ∀ k, upN (finalise t fin) h k = upN t h k
+  | 0 => rfl
+  | k + 1 => by
+    show parentOf (finalise t fin) (upN (finalise t fin) h k) = parentOf t (upN t h k)
+    rw [finalise_parentOf, finalise_upN t fin h k]
+
+/-- `SetFinalisedHash` of a block of the best chain keeps the state well formed -/
+theorem wf_finalise {t : Tree} (wf : WF t) {fin : Nat} (hfin : fin ≤ bestNum t) :
+    WF (finalise t fin) := by
+  have hfk := canon_known wf hfin
+  have hfn := canon_num wf hfin
+  constructor
+  · -- genesis is an ancestor of the finalised block
+    have h0 : upN t (canon t fin) fin = 0 := by
+      obtain ⟨h1, h2⟩ := upN_known wf hfk fin (by omega)
+      exact eq_zero_of_num_zero wf h1 (by omega)
+    rw [finalise_get, wf.root]
+    simp [h0]
+  · intro i hi0 hki
+    obtain ⟨hk, hkeep⟩ := (finalise_known t fin i).mp hki
+    obtain ⟨h1, h2, h3⟩ := wf.child i hi0 hk
+    rw [finalise_parentOf, finalise_numOf, finalise_numOf]
+    refine ⟨h1, (finalise_known t fin _).mpr ⟨h2, ?_⟩, h3⟩
+    -- the parent of a kept block is kept
+    rcases hkeep with ⟨hle, hup⟩ | ⟨hge, hup⟩
+    · left
+      refine ⟨by omega, ?_⟩
+      have e : fin - numOf t (parentOf t i) = (fin - numOf t i) + 1 := by omega
+      rw [e]
+      show parentOf t (upN t (canon t fin) (fin - numOf t i)) = parentOf t i
+      rw [hup]
+    · by_cases heq : numOf t i = fin
+      · left
+        refine ⟨by omega, ?_⟩
+        have hif : i = canon t fin := by
+          have := hup
+          rw [heq, Nat.sub_self] at this
+          exact this
+        have e : fin - numOf t (parentOf t i) = 1 := by omega
+        rw [e, ← hif]
+        rfl
+      · right
+        refine ⟨by omega, ?_⟩
+        have e : numOf t (parentOf t i) - fin + 1 = numOf t i - fin := by omega
+        rw [upN_parent, e]
+        exact hup
 
 /-- main chain 1..4 and a fork 5, 6 on block 1 -/
 def exampleTree : Tree := addSeg (addSeg genesisTree 4 0) 2 1
 
 theorem exampleTree_wf : WF exampleTree :=
   wf_addSeg 2 (wf_addSeg 4 wf_genesis (by decide)) (by decide)
+
+/-- the same tree after finalising block 2: the fork 5, 6 on block 1 is pruned, blocks 0..2 live
+    in the database -/
+def prunedTree : Tree := finalise exampleTree 2
+
+theorem prunedTree_wf : WF prunedTree := wf_finalise exampleTree_wf (by decide)
+
+example : (List.range 8).map (known prunedTree) = [true, true, true, true, true, false, false, false] := by
+  decide
+-- a pruned block is unknown; ascending from a finalised block crosses into the block tree
+example : (serve prunedTree ⟨.hash 5, 0, none, 1⟩).toOption = none := by decide
+example : (serve prunedTree ⟨.hash 1, 0, none, 1⟩).toOption
+    = some [⟨1, 1⟩, ⟨2, 1⟩, ⟨3, 1⟩, ⟨4, 1⟩] := by decide +kernel
+example : (serve prunedTree ⟨.num 4, 1, some 3, 3⟩).toOption = some [⟨4, 3⟩, ⟨3, 3⟩, ⟨2, 3⟩] := by
+  decide
 
 -- non-trivial responses that the theorem speaks about
 example : (serve exampleTree ⟨.num 2, 0, some 2, 19⟩).toOption = some [⟨2, 3⟩, ⟨3, 19⟩] := by decide
